@@ -50,9 +50,14 @@ namespace fastscapelib
             {
             }
 
+            // nodes of equal elevation are ordered by index so that the order in
+            // which nodes are processed (and the resulting filled elevation)
+            // does not depend on the order in which they are inserted in the
+            // queue, e.g., the arbitrary iteration order of the base levels
             bool operator>(const pflood_node<FG, T>& other) const
             {
-                return m_elevation > other.m_elevation;
+                return m_elevation > other.m_elevation
+                       || (m_elevation == other.m_elevation && m_idx > other.m_idx);
             }
         };
 
